@@ -9,6 +9,7 @@ import (
 	"net/url"
 	"runtime"
 	"runtime/debug"
+	"strconv"
 	"strings"
 	"sync"
 
@@ -21,9 +22,13 @@ import (
 )
 
 // faultBody is an http body that yields data and then ends cleanly (io.EOF)
-// or abruptly (io.ErrUnexpectedEOF), in one of three delivery patterns.
+// or abruptly (io.ErrUnexpectedEOF), in one of four delivery patterns: as much
+// as the reader asks for, one byte per Read, the ending reported together with
+// the last bytes, or with read boundaries at given offsets (no Read crosses one).
 type faultBody struct {
 	data     []byte
+	off      int   // bytes handed out so far
+	splits   []int // delivery "split": no Read crosses one of these offsets
 	end      error
 	delivery string
 	once     sync.Once
@@ -35,7 +40,7 @@ func newFaultBody(c *Case) *faultBody {
 	if c.Abrupt {
 		end = io.ErrUnexpectedEOF
 	}
-	return &faultBody{data: c.Body(), end: end, delivery: c.Delivery, closed: make(chan struct{})}
+	return &faultBody{data: c.Body(), end: end, delivery: c.Delivery, splits: c.Splits, closed: make(chan struct{})}
 }
 
 func (f *faultBody) Read(p []byte) (int, error) {
@@ -49,17 +54,86 @@ func (f *faultBody) Read(p []byte) (int, error) {
 	if f.delivery == "bytewise" {
 		n = 1
 	}
+	for _, b := range f.splits {
+		if f.off < b && b < f.off+n {
+			n = b - f.off
+		}
+	}
 	n = copy(p[:n], f.data)
 	f.data = f.data[n:]
+	f.off += n
 	if f.delivery == "with-err" && len(f.data) == 0 {
 		return n, f.end
 	}
 	return n, nil
 }
 
+// harnessSelfTest checks the body reader itself: under every fragmentation of
+// a 9-byte body (and every size of the reader's buffer) it hands out exactly
+// the bytes of the body, no Read crosses a declared read boundary, every
+// declared boundary is a boundary between two Reads when the buffer is large
+// enough, and the ending is the one asked for.
+func harnessSelfTest() error {
+	body := []byte("012345678")
+	L := len(body)
+	n := fragCount(L, true, true)
+	for i := 0; i < n; i++ {
+		v := fragAt(L, i, true)
+		for _, abrupt := range []bool{false, true} {
+			for bufLen := 1; bufLen <= L+1; bufLen++ {
+				c := &Case{body: body, Abrupt: abrupt, Delivery: v.delivery, Splits: v.splits}
+				fb := newFaultBody(c)
+				var got []byte
+				ends := map[int]bool{}
+				var err error
+				for k := 0; k < 4*L && err == nil; k++ {
+					var m int
+					from := len(got)
+					m, err = fb.Read(make([]byte, bufLen))
+					got = append(got, body[from:from+m]...)
+					for _, b := range v.splits {
+						if from < b && b < from+m {
+							return fmt.Errorf("harness: a Read of %d bytes at offset %d crosses the read boundary %d", m, from, b)
+						}
+					}
+					ends[from+m] = true
+				}
+				want := io.EOF
+				if abrupt {
+					want = io.ErrUnexpectedEOF
+				}
+				if string(got) != string(body) || err != want {
+					return fmt.Errorf("harness: fragmentation %v %v yields %q / %v", v.delivery, v.splits, got, err)
+				}
+				for _, b := range v.splits {
+					if !ends[b] {
+						return fmt.Errorf("harness: fragmentation %v: no Read ended at %d", v.splits, b)
+					}
+				}
+			}
+		}
+	}
+	return nil
+}
+
 func (f *faultBody) Close() error {
 	f.once.Do(func() { close(f.closed) })
 	return nil
+}
+
+// declare returns the length the message carrying the body declares for it
+// (the ContentLength field of the request/response) and makes the
+// Content-Length header agree with it, as net/http would have it.
+func declare(c *Case, h http.Header, dflt int64) int64 {
+	if c.CL == nil {
+		return dflt
+	}
+	if *c.CL >= 0 {
+		h.Set("Content-Length", strconv.FormatInt(*c.CL, 10))
+	} else {
+		h.Del("Content-Length")
+	}
+	return *c.CL
 }
 
 func totalAlloc() uint64 {
@@ -143,8 +217,9 @@ func runClient(c *Case) *Obs {
 	called := make(chan struct{})
 	rt := common.RT(func(r *http.Request) (*http.Response, error) {
 		close(called)
+		h := http.Header{"Content-Type": {httpgrpc.StreamRpcContentType_V1}}
 		return &http.Response{StatusCode: 200, Status: "200 OK", Proto: "HTTP/1.1", ProtoMajor: 1, ProtoMinor: 1,
-			Header: http.Header{"Content-Type": {httpgrpc.StreamRpcContentType_V1}}, Body: fb, Request: r}, nil
+			Header: h, Body: fb, ContentLength: declare(c, h, -1), Request: r}, nil
 	})
 	ch := &httpgrpc.Channel{Transport: rt, BaseURL: baseURL}
 	ctx, cancel := context.WithCancel(context.Background())
@@ -201,6 +276,7 @@ func runServer(c *Case) *Obs {
 	fb := newFaultBody(c)
 	req := httptest.NewRequest("POST", path, fb)
 	req.Header.Set("Content-Type", httpgrpc.StreamRpcContentType_V1)
+	req.ContentLength = declare(c, req.Header, -1)
 	rec := httptest.NewRecorder()
 	before := totalAlloc()
 	func() {
@@ -228,8 +304,12 @@ func runUnaryClient(c *Case) *Obs {
 		for k, v := range c.Header {
 			h[k] = append([]string(nil), v...)
 		}
+		recorded := int64(-1)
+		if v, err := strconv.ParseInt(h.Get("Content-Length"), 10, 64); err == nil {
+			recorded = v // the real server declares the length of a unary reply
+		}
 		return &http.Response{StatusCode: c.Status, Status: http.StatusText(c.Status), Proto: "HTTP/1.1", ProtoMajor: 1, ProtoMinor: 1,
-			Header: h, Body: fb, Request: r}, nil
+			Header: h, Body: fb, ContentLength: declare(c, h, recorded), Request: r}, nil
 	})
 	ch := &httpgrpc.Channel{Transport: rt, BaseURL: baseURL}
 	before := totalAlloc()
@@ -266,6 +346,7 @@ func runUnaryServer(c *Case) *Obs {
 	})
 	req := httptest.NewRequest("POST", "/t.S/U", newFaultBody(c))
 	req.Header.Set("Content-Type", httpgrpc.UnaryRpcContentType_V1)
+	req.ContentLength = declare(c, req.Header, -1)
 	rec := httptest.NewRecorder()
 	before := totalAlloc()
 	func() {
